@@ -212,6 +212,32 @@ theorem C13_conditions (cod : Nat → List (Option Nat)) (docs : List Found) (c 
     c ∈ statementConditions cod docs ↔ ∃ d ∈ docs, some c ∈ cod d.id := by
   simp [statementConditions, List.mem_flatMap, List.mem_filterMap]
 
+theorem collectFieldsP_append (xs ys : List (String × TV)) :
+    collectFieldsP (xs ++ ys) = collectFieldsP xs ++ collectFieldsP ys := by
+  induction xs with
+  | nil => simp [collectFieldsP]
+  | cons kv xs ih =>
+    obtain ⟨k, x⟩ := kv
+    simp only [List.cons_append, collectFieldsP, ih, List.append_assoc]
+
+/-- C13_fields_compose: the documents of a resource are the documents of its properties, one property after the
+    other — adding, removing or changing one property never hides, duplicates or reorders the documents found under
+    the others. -/
+theorem C13_fields_compose (xs ys : List (String × TV)) :
+    policyDocuments (xs ++ ys) = policyDocuments xs ++ policyDocuments ys := by
+  simp [policyDocuments, collectFieldsP_append]
+
+/-- C13_irrelevant_property: a property that holds no document contributes nothing, wherever it stands. -/
+theorem C13_irrelevant_property (xs ys : List (String × TV)) (k : String) (x : TV) (h : collectP x = []) :
+    policyDocuments (xs ++ (k, x) :: ys) = policyDocuments (xs ++ ys) := by
+  rw [C13_fields_compose, C13_fields_compose]
+  simp [policyDocuments, collectFieldsP, h]
+
+/-- C13_conditions_compose: likewise the conditions of several documents are those of each, in order. -/
+theorem C13_conditions_compose (cod : Nat → List (Option Nat)) (d₁ d₂ : List Found) :
+    statementConditions cod (d₁ ++ d₂) = statementConditions cod d₁ ++ statementConditions cod d₂ := by
+  simp [statementConditions, List.flatMap_append]
+
 -- Non-vacuity
 example : policyDocuments [("A", .list [.doc 1, .generic [("PolicyDocument", .doc 2), ("x", .other)]]),
                            ("B", .policy "n" 3), ("C", .other)] = [⟨none, 1⟩, ⟨none, 2⟩, ⟨some "n", 3⟩] := by decide
